@@ -44,7 +44,7 @@ class Event:
 
     async def wait(self):
         if not self.flag:
-            cancel_point()
+            suspend_point(self)
             assume(self.flag)  # resumed only once somebody has set it (other tasks ran meanwhile)
         return True
 
@@ -191,12 +191,15 @@ class SSLContext:
 
 
 class Future:
-    """asyncio.Future as far as the flow-control code uses it.  `pending` = not done.  A future registered in a
-    FutureDeque keeps that collection's count of pending members up to date (ghost bookkeeping)."""
+    """asyncio.Future as far as the flow-control code uses it.  `pending` = not done.  A future that is a member of a
+    FutureDeque (`member`) keeps that collection's count of pending members up to date (ghost bookkeeping); its done
+    callback (`cb`, at most one is modelled) runs when the future completes, before the awaiting task is resumed."""
 
     def __init__(self):
         self.pending = True
         self.owner = None
+        self.member = False
+        self.cb = None
         self.exception_set = False
         self.result_set = False  # ghost: completed by set_result (as opposed to cancelled / failed)
 
@@ -210,37 +213,44 @@ class Future:
         require(self.pending, "set_result-on-a-pending-future (InvalidStateError otherwise)")
         self.pending = False
         self.result_set = True
-        if self.owner is not None:
+        if self.owner is not None and self.member:
             self.owner.pending = self.owner.pending - 1
 
     def set_exception(self, exc):
         require(self.pending, "set_exception-on-a-pending-future (InvalidStateError otherwise)")
         self.pending = False
         self.exception_set = True
-        if self.owner is not None:
+        if self.owner is not None and self.member:
             self.owner.pending = self.owner.pending - 1
 
     def add_done_callback(self, callback):
+        require(self.cb is None, "model limit: one done callback per future")
+        self.cb = callback
         return None
+
+    def _run_done_callbacks(self):
+        cb = self.cb
+        if cb is not None:
+            self.cb = None
+            cb(self)
 
     def __model_await__(self):
         """Suspends until the future is done.  While suspended other tasks and protocol callbacks run (rely of the
-        function under verification); cancelling the awaiting task cancels the future.  In both cases the done-callback
-        registered by the flow control removes the future from its collection."""
+        function under verification); cancelling the awaiting task cancels the future.  In both cases the future's done
+        callback has run by the time the awaiting task continues (asyncio runs callbacks in registration order and the
+        task's own wake-up is registered last)."""
         if self.pending:
             try:
                 suspend_point(self)
             except asyncio.CancelledError:
                 if self.pending:
                     self.pending = False
-                    if self.owner is not None:
+                    if self.owner is not None and self.member:
                         self.owner.pending = self.owner.pending - 1
-                if self.owner is not None:
-                    self.owner.n = self.owner.n - 1
+                self._run_done_callbacks()
                 raise
             assume(not self.pending)  # resumed normally only once the future has been completed
-        if self.owner is not None:
-            self.owner.n = self.owner.n - 1
+        self._run_done_callbacks()
         if self.exception_set:
             raise_any(Exception)
         return None
@@ -248,21 +258,76 @@ class Future:
 
 class FutureDeque:
     """deque of futures (drain waiters): n members, `pending` of them not done; `rest` (ghost) = pending members not yet
-    visited by the iteration in progress."""
+    visited by the iteration in progress; `mine` (ghost) = the future appended by the function under verification.
+    ghost.stranded counts pending members of OTHER senders taken out of the collection: nothing can complete them any more."""
 
     def __init__(self):
         self.n = 0
         self.pending = 0
         self.rest = 0
+        self.mine = None
 
     def append(self, fut):
+        require(self.mine is None, "model limit: the function under verification appends one future")
         fut.owner = self
+        fut.member = True
+        self.mine = fut
         self.n = self.n + 1
         if fut.pending:
             self.pending = self.pending + 1
 
-    def remove(self, fut):
+    def _take_out(self, fut, foreign):
+        fut.member = False
         self.n = self.n - 1
+        if fut.pending:
+            self.pending = self.pending - 1
+            if foreign:
+                ghost.stranded = ghost.stranded + 1
+
+    def remove(self, fut):
+        if not fut.member:
+            raise ValueError
+        self._take_out(fut, fut is not self.mine)
+
+    def _some_foreign_member(self):
+        f = Future()
+        f.owner = self
+        f.member = True
+        f.pending = nondet_bool()
+        m = self.mine
+        own_pending = 1 if (m is not None and m.member and m.pending) else 0
+        assume(implies(f.pending, self.pending - own_pending >= 1))
+        return f
+
+    def _pop_end(self):
+        """popleft()/pop(): which member sits at that end is not tracked - it is this function's own future only if that is
+        still a member (necessarily so when it is the only member), otherwise one appended by another sender."""
+        if self.n == 0:
+            raise IndexError
+        m = self.mine
+        own_in = m is not None and m.member
+        if own_in and (self.n == 1 or nondet_bool()):
+            self._take_out(m, False)
+            return m
+        assume(self.n >= (2 if own_in else 1))
+        f = self._some_foreign_member()
+        self._take_out(f, True)
+        return f
+
+    def popleft(self):
+        return self._pop_end()
+
+    def pop(self):
+        return self._pop_end()
+
+    def clear(self):
+        m = self.mine
+        own_pending = 1 if (m is not None and m.member and m.pending) else 0
+        ghost.stranded = ghost.stranded + (self.pending - own_pending)
+        if m is not None:
+            m.member = False
+        self.n = 0
+        self.pending = 0
 
     def __model_len__(self):
         return self.n
@@ -274,6 +339,7 @@ class FutureDeque:
     def __model_item__(self, i):
         f = Future()
         f.owner = self
+        f.member = True
         f.pending = nondet_bool()
         assume(implies(f.pending, self.rest >= 1))
         assume(implies(self.rest == self.n - i, f.pending))
@@ -401,6 +467,26 @@ class TaskGroup:
     def start_soon(self, coro_func, *args):
         ghost.tasks_started = ghost.tasks_started + 1
         return None
+
+
+class JoinTaskGroup:
+    """backend.create_task_group() used as `async with`: leaving the block joins the children - it returns or raises only
+    after every started task has finished (ghost.children_running = 0 from then on), whatever happens to the host task
+    meanwhile (its own cancellation is delivered at the join, children failures are re-raised as a group)."""
+
+    async def __aenter__(self):
+        return self
+
+    def start_soon(self, coro_func, *args):
+        ghost.children_running = ghost.children_running + 1
+        return None
+
+    async def __aexit__(self, et, ev, tb):
+        ghost.children_running = 0
+        suspend_point(self)
+        if nondet_bool():
+            raise_any(BaseException)
+        return False
 
 
 class Context:
